@@ -43,8 +43,8 @@ Lanes == 0..NLanes-1
   {
   PO0: while (n <= PopN) {
          r := 0;
-    PO1: p := pop;                                           \* empty(): population.load
-         if (p = {}) { goto PORet };
+    PO1: p := pop;                                           \* loop condition !empty() && !popped: the population is loaded even after a successful try_pop
+         if (p = {} \/ r # 0) { goto PORet };
     POs: prev := (prev + NLanes - 1) % NLanes; lane := prev; \* preceding_lane_selector
     PO2: p := pop;                                           \* try_pop: is_bit_set(population.load)
          if (lane \notin p) { goto PO1 };
@@ -59,7 +59,7 @@ Lanes == 0..NLanes-1
          else { goto PO7 };
     PO6: pop := pop \ {lane};                                \* clear_one_bit: fetch_and
     PO7: mtx[lane] := FALSE;                                 \* unlock: exchange(false)
-         if (r = 0) { goto PO1 };
+         goto PO1;
     PORet: got[self] := Append(got[self], r); n := n + 1;
     }
   }
@@ -200,7 +200,7 @@ PO0(self) == /\ pc[self] = "PO0"
 
 PO1(self) == /\ pc[self] = "PO1"
              /\ p' = [p EXCEPT ![self] = pop]
-             /\ IF p'[self] = {}
+             /\ IF p'[self] = {} \/ r[self] # 0
                    THEN /\ pc' = [pc EXCEPT ![self] = "PORet"]
                    ELSE /\ pc' = [pc EXCEPT ![self] = "POs"]
              /\ UNCHANGED << pop, mtx, q, got, k, prev_, lane_, f_, n, prev, 
@@ -265,9 +265,7 @@ PO6(self) == /\ pc[self] = "PO6"
 
 PO7(self) == /\ pc[self] = "PO7"
              /\ mtx' = [mtx EXCEPT ![lane[self]] = FALSE]
-             /\ IF r[self] = 0
-                   THEN /\ pc' = [pc EXCEPT ![self] = "PO1"]
-                   ELSE /\ pc' = [pc EXCEPT ![self] = "PORet"]
+             /\ pc' = [pc EXCEPT ![self] = "PO1"]
              /\ UNCHANGED << pop, q, got, k, prev_, lane_, f_, n, prev, lane, 
                              f, r, p, sn, last, idx, sf, sr, spp, at >>
 
